@@ -59,6 +59,10 @@ func runC07x(c *GCase, clone bool, st *Stats) (dd *c07Diffs, err error) {
 	probe := NewProbe()
 	probe.Budget = 8000
 	probe.Snap = true
+	// without left recursion (and without trimming, whose whitespace errors depend on who asks
+	// first) a memoized parser has one answer per position - result and error - whoever asks
+	lrc := classifyLR(g)
+	probe.TrackAnswers = !lrc.Any && !trims && !clone
 	// sequence-like nodes are bound to the library's own Array interpreter: evaluating a returned
 	// tree (twice) is part of the history after which every returned node must read the same
 	b := Build(g, BuildOpts{MemoRules: c.memoRules(), Probe: probe, CloneTrimOperand: clone, Interp: interpreter.Array()})
@@ -126,6 +130,10 @@ func runC07x(c *GCase, clone bool, st *Stats) (dd *c07Diffs, err error) {
 		}
 	}
 	compare("after asking every rule again")
+	if probe.AnswerDiff != "" {
+		diffs = append(diffs, probe.AnswerDiff)
+		dd.hard = append(dd.hard, probe.AnswerDiff)
+	}
 	if st != nil {
 		st.ClassN("snapshots", len(probe.snaps))
 		if shared {
